@@ -360,6 +360,8 @@ func runC16(p *core.Program, r *core.Report) {
 	noSilentTruncation(p, r, "C16.zip-complete", []string{"util/compressutil"})
 	r.Rule("C16.stateless", "what a record or a batch encodes to depends on that record or batch only: no function of lang/pack writes package-level state (a cache of encoded pieces filled while writing makes a later payload carry an earlier record's bytes)", 1)
 	statelessRule(p, r, "C16.stateless", []string{"lang/pack"})
+	r.Rule("C16.handed-over", "a pack already handed to the client is never altered: behind Send/SendFlush the sender neither passes the pack on (recycling, reset) nor assigns through it", 2)
+	c16HandedOver(p, r, "C16.handed-over")
 	r.Rule("C16.zip-fresh", "the compressed bytes DoZip hands back are the caller's own: they are not the backing array of a buffer that is reused by the next compression (pooled, package-level), so a pack already handed to the client is not rewritten", 1)
 	freshBytesResult(p, r, "C16.zip-fresh", []string{"util/compressutil"})
 	c16Defaults(p, r)
@@ -1463,4 +1465,163 @@ func zipAtSend(ps []paths.Path) []string {
 		}
 	}
 	return uniq(zp)
+}
+
+// c16HandedOver: a pack that has been handed to the client is the client's (it may sit in the client's
+// queue, be retried, or be kept by the receiver of an in-process client). In logsink/zip, behind the
+// call that hands a pack over (Send/SendFlush on the client) the same pack is neither passed to
+// another function nor assigned through: no recycling into a pool, no reset, no field update.
+func c16HandedOver(p *core.Program, r *core.Report, rule string) {
+	pk := p.Pkg("logsink/zip")
+	if pk == nil {
+		r.Undec(rule, "logsink/zip", "-", "package not found")
+		return
+	}
+	n := 0
+	for _, fi := range p.Funcs {
+		if fi.Pkg != pk || fi.Decl.Body == nil {
+			continue
+		}
+		info := fi.Pkg.TypesInfo
+		ast.Inspect(fi.Decl.Body, func(m ast.Node) bool {
+			call, ok := m.(*ast.CallExpr)
+			if !ok || len(call.Args) == 0 {
+				return true
+			}
+			sel, ok := ast.Unparen(call.Fun).(*ast.SelectorExpr)
+			if !ok || (sel.Sel.Name != "SendFlush" && sel.Sel.Name != "Send") {
+				return true
+			}
+			id, ok := ast.Unparen(call.Args[0]).(*ast.Ident)
+			if !ok {
+				return true
+			}
+			obj, _ := info.ObjectOf(id).(*types.Var)
+			if obj == nil || obj.IsField() {
+				return true
+			}
+			n++
+			bad := ""
+			touch := func(k ast.Node) bool {
+				switch v := k.(type) {
+				case *ast.CallExpr:
+					for _, a := range v.Args {
+						if aid, ok := ast.Unparen(a).(*ast.Ident); ok && info.ObjectOf(aid) == types.Object(obj) {
+							bad = "the pack is passed to " + types.ExprString(v.Fun) + " at " + p.Pos(v.Pos()) + " after it was handed to the client"
+						}
+					}
+					if s2, ok := ast.Unparen(v.Fun).(*ast.SelectorExpr); ok {
+						if rid, ok := ast.Unparen(s2.X).(*ast.Ident); ok && info.ObjectOf(rid) == types.Object(obj) {
+							if fn, _ := info.Uses[s2.Sel].(*types.Func); fn != nil {
+								if sig := fn.Type().(*types.Signature); sig.Recv() != nil {
+									if _, ptr := sig.Recv().Type().(*types.Pointer); ptr && !strings.HasPrefix(fn.Name(), "Get") && !strings.HasPrefix(fn.Name(), "To") && fn.Name() != "Size" {
+										bad = "a method of the pack (" + fn.Name() + ") is called at " + p.Pos(v.Pos()) + " after it was handed to the client"
+									}
+								}
+							}
+						}
+					}
+				case *ast.AssignStmt:
+					for _, l := range v.Lhs {
+						if root := rootOf(l); root != nil && info.ObjectOf(root) == types.Object(obj) {
+							if _, plain := ast.Unparen(l).(*ast.Ident); !plain {
+								bad = "the pack is assigned through at " + p.Pos(v.Pos()) + " after it was handed to the client"
+							}
+						}
+					}
+				}
+				return true
+			}
+			// what runs behind the hand-over, until the variable is bound to another pack: the rest of
+			// every enclosing block (innermost first); leaving a loop body without a new binding, the
+			// whole body runs again behind it
+			rebinds := func(st ast.Stmt) bool {
+				as, ok := st.(*ast.AssignStmt)
+				if !ok {
+					return false
+				}
+				for _, l := range as.Lhs {
+					if lid, ok := ast.Unparen(l).(*ast.Ident); ok && info.ObjectOf(lid) == types.Object(obj) {
+						return true
+					}
+				}
+				return false
+			}
+			var chain []ast.Node
+			var cur []ast.Node
+			ast.Inspect(fi.Decl.Body, func(k ast.Node) bool {
+				if k == nil {
+					cur = cur[:len(cur)-1]
+					return true
+				}
+				cur = append(cur, k)
+				if k == ast.Node(call) {
+					chain = append([]ast.Node{}, cur...)
+				}
+				return true
+			})
+			rebound := false
+			for i := len(chain) - 1; i >= 0 && !rebound; i-- {
+				var list []ast.Stmt
+				switch b := chain[i].(type) {
+				case *ast.BlockStmt:
+					list = b.List
+				case *ast.CaseClause:
+					list = b.Body
+				case *ast.ForStmt:
+					if !rebound {
+						ast.Inspect(b.Body, func(k ast.Node) bool {
+							if k != nil && !(k.Pos() <= call.Pos() && call.End() <= k.End()) {
+								touch(k)
+							}
+							return true
+						})
+					}
+					continue
+				case *ast.RangeStmt:
+					if !rebound {
+						ast.Inspect(b.Body, func(k ast.Node) bool {
+							if k != nil && !(k.Pos() <= call.Pos() && call.End() <= k.End()) {
+								touch(k)
+							}
+							return true
+						})
+					}
+					continue
+				default:
+					continue
+				}
+				after := false
+				for _, st := range list {
+					if st.Pos() <= call.Pos() && call.End() <= st.End() {
+						after = true
+						continue
+					}
+					if !after {
+						continue
+					}
+					if rebinds(st) {
+						rebound = true
+						break
+					}
+					ast.Inspect(st, func(k ast.Node) bool {
+						if k != nil {
+							touch(k)
+						}
+						return true
+					})
+				}
+			}
+			c := core.FuncName(fi.Obj) + " leaves the pack it handed over alone"
+			if bad != "" {
+				r.Viol(rule, c, p.Pos(call.Pos()), bad+": a client (or receiver) that still holds it sees it change")
+			} else {
+				r.OK(rule, c, p.Pos(call.Pos()), "not touched behind the hand-over")
+			}
+			return true
+		})
+	}
+	if n == 0 {
+		r.Undec(rule, "logsink/zip hand-over", "-", "no Send/SendFlush of a local pack found")
+	}
 }
